@@ -10,6 +10,7 @@
 (* defs = <<[v, k, c]>>, skip ("past" | "next" | "first" | "last" with skback), part (partition column). *)
 (*   pattern AST: [t |-> "var", v] | "seq" ps | "alt" ps | "q" p lo hi (hi=-1: unbounded) *)
 (*   DEFINE kinds: "gt" c | "lt" c | "up" (v > PREV(v)) | "down" | "true"    *)
+(*                 | "up2" (v > PREV(v, 2)) | "down2"                         *)
 (***************************************************************************)
 EXTENDS SV, Json, IOUtils
 CONSTANT Dev
@@ -38,6 +39,9 @@ Holds(v, ix, i, st) ==
     [] d.k = "lt" -> x.k = "num" /\ x.v < d.c
     [] d.k = "up" -> i > 1 /\ x.k = "num" /\ V(ix, i - 1).k = "num" /\ x.v > V(ix, i - 1).v
     [] d.k = "down" -> i > 1 /\ x.k = "num" /\ V(ix, i - 1).k = "num" /\ x.v < V(ix, i - 1).v
+    \* PREV(v, 2): two rows back WITHIN the match so far (navigation never leaves the match: before its start there is nothing, the comparison is not true)
+    [] d.k = "up2" -> i - 2 >= st /\ x.k = "num" /\ V(ix, i - 2).k = "num" /\ x.v > V(ix, i - 2).v
+    [] d.k = "down2" -> i - 2 >= st /\ x.k = "num" /\ V(ix, i - 2).k = "num" /\ x.v < V(ix, i - 2).v
 
 \* Ends(p, ix, i): positions j (exclusive end) such that ix[i..j-1] matches p
 \* (st = first row of the match: DEFINE conditions with running aggregates depend on it)
